@@ -197,6 +197,24 @@ Definition plain_update (P : pparams) (st : pstate) (pop : list pind) : option (
       Some (mkPS parent pfit sigma psucc pc C (cholesky C), sorted)
   end.
 
+(* one generate / evaluate / update round and a history of rounds; evalf is the (arbitrary)
+   evaluation function genotype -> weighted fitness values; the log collects every fitness
+   evaluated so far *)
+Definition plain_round (P : pparams) (evalf : vec -> list T) (st : pstate) (arz : list vec)
+  : option (pstate * list pind) :=
+  plain_update P st (map (fun x => (x, evalf x)) (plain_generate st arz)).
+
+Fixpoint plain_run (P : pparams) (evalf : vec -> list T) (st : pstate) (draws : list (list vec))
+                   (log : list (list T)) : option (pstate * list (list T)) :=
+  match draws with
+  | [] => Some (st, log)
+  | arz :: rest =>
+      match plain_round P evalf st arz with
+      | None => None
+      | Some (st', _) => plain_run P evalf st' rest (log ++ map evalf (plain_generate st arz))
+      end
+  end.
+
 (* ======================================================================================== *)
 (* StrategyActiveOnePlusLambda                                                               *)
 (* ======================================================================================== *)
@@ -427,6 +445,39 @@ Definition active_update (dim : nat) (P : aparams) (st : astate) (pop : list ain
         (as_invA st2) (as_cvecs st2) (as_anc st2)
         (flatnonzero_from 0 (as_sigma st2) (diag_AAT (as_A st2)) (ap_S_int P)), aps).
 
+(* one round: draws (z, us, gs, pm), oracle values invs; evalfit : genotype -> fitness *)
+Record adraws := mkAD { ad_z : list vec; ad_us : list T; ad_gs : list T; ad_pm : list (list Z);
+                        ad_invs : list (option mat) }.
+
+Definition active_population (dim : nat) (P : aparams) (evalfit : vec -> fitness) (st : astate) (d : adraws)
+  : option (list aind) :=
+  match integer_mutation dim (ap_lambda P) (as_iIR st) (ad_us d) (ad_gs d) (ad_pm d) with
+  | None => None
+  | Some R_int =>
+      Some (map (fun xyz : vec * vec * vec => let '(x, y, z) := xyz in mkAI x y z (evalfit x))
+                (active_generate P st (ad_z d) R_int))
+  end.
+
+Definition active_round (dim : nat) (P : aparams) (evalfit : vec -> fitness) (st : astate) (d : adraws)
+  : option astate :=
+  match active_population dim P evalfit st d with
+  | None => None
+  | Some pop => Some (fst (active_update dim P st pop (ad_invs d)))
+  end.
+
+Fixpoint active_run (dim : nat) (P : aparams) (evalfit : vec -> fitness) (st : astate) (draws : list adraws)
+                    (log : list fitness) : option (astate * list fitness) :=
+  match draws with
+  | [] => Some (st, log)
+  | d :: rest =>
+      match active_population dim P evalfit st d with
+      | None => None
+      | Some pop =>
+          active_run dim P evalfit (fst (active_update dim P st pop (ad_invs d))) rest
+                     (log ++ map ai_fit pop)
+      end
+  end.
+
 (* ======================================================================================== *)
 (* StrategyMultiObjective                                                                    *)
 (* ======================================================================================== *)
@@ -621,5 +672,18 @@ Definition mo_update (P : mparams) (st : mstate) (population : list mind) (hv : 
         (pick mr_sigma sgL c0) (pick mr_A (ms_A st) []) (pick mr_invC (ms_invC st) [])
         (pick mr_pc (ms_pc st) []) (pick mr_psucc psL c0),
    chosen_i, not_chosen_i, seen).
+
+(* one round and a history; evalf : genotype -> weighted values *)
+Definition mo_round (P : mparams) (evalf : vec -> list T) (st : mstate) (arz : list vec) (js hv : list nat)
+  : mstate :=
+  let pop := map (fun xp : vec * nat => mkMI (fst xp) (evalf (fst xp)) true (snd xp)) (mo_generate P st arz js) in
+  let '(st', _, _, _) := mo_update P st pop hv in st'.
+
+Fixpoint mo_run (P : mparams) (evalf : vec -> list T) (st : mstate) (draws : list (list vec * list nat * list nat))
+  : mstate :=
+  match draws with
+  | [] => st
+  | (arz, js, hv) :: rest => mo_run P evalf (mo_round P evalf st arz js hv) rest
+  end.
 
 End Generic.
